@@ -206,6 +206,9 @@ class Ctx:
             for m in self.inconclusive:
                 print('INCONCLUSIVE:', m)
             code = 2
+        elif self.inconclusive:
+            for m in self.inconclusive:
+                print('NOTE (inconclusive part):', m)
         states = S.totals['paths']
         ev = {
             'property_id': self.pid, 'tier': self.tier, 'seed': self.seed, 'level': 'model_checking',
@@ -247,7 +250,9 @@ class Ctx:
         return code
 
 
-def main(pid, run):
+def main(pid, run, native=None):
+    """native(ctx): optional supplement run when the symbolic part is inconclusive - it can only turn an exit 2 into an exit 1
+    (a violation reproduced on the real build); it never turns anything into a pass"""
     import argparse
     ap = argparse.ArgumentParser()
     ap.add_argument('--tier', default=os.environ.get('VERIF_TIER', 'quick'))
@@ -268,5 +273,13 @@ def main(pid, run):
     except (Unsupported, Inconclusive, PathLimit, T.DecodeError) as e:
         traceback.print_exc(limit=6)
         print(f'INCONCLUSIVE: {type(e).__name__}: {e}')
-        ctx.S.close()
-        return 2
+        ctx.inconclusive.append(f'{type(e).__name__}: {e}')
+        if native is not None:
+            # the symbolic engine could not go on (e.g. new code without a model): try to exhibit a violation on the real build
+            try:
+                ctx.violations_before = len(ctx.violations)
+                native(ctx)
+            except Exception as e2:          # the supplement must never mask the inconclusive verdict
+                print(f'INCONCLUSIVE: native supplement failed: {type(e2).__name__}: {e2}')
+        code = ctx.finish()
+        return code if code == 1 else 2
